@@ -635,7 +635,7 @@ func (h *hist) classOf(f finding) string {
 // check runs the walker and reports. Returns false when the history must stop.
 func (h *hist) check(full bool) bool {
 	v, fs := h.walk(full)
-	if len(fs)+len(h.pendingFindings) > 0 && !full {
+	if (len(fs)+len(h.pendingFindings) > 0 || v.suspect) && !full {
 		// gather every consequence at the failing step
 		v, fs = h.walk(true)
 	}
